@@ -91,6 +91,7 @@ def checkSched (c : Case) : VM Unit := do
     pre := some post
   vstat "sched.ops" nOps
   vstat "c09.networks" 1
+  vstat "c05.depotnodes" (if depotNodesB nw then 1 else 0)
   vstat "c09.nethyps" (if netHypsB nw then 1 else 0)
   vstat "sched.changed" nChanged
   vstat "sched.op-kinds" kinds.length
